@@ -88,16 +88,19 @@ class _Fold(ast.NodeTransformer):
 
 
 def _sum_term(fn, itname):
-    """`<itname> = (<elt> for ... )` and `sum(r[1] - r[0] for r in <itname>)` -> (generator text, Z term)"""
-    gens = [n for n in ast.walk(fn) if isinstance(n, ast.Assign) and _u(n.targets[0]) == itname and isinstance(n.value, ast.GeneratorExp)]
-    assert len(gens) == 1, f'{itname} generator expected'
-    sums = [c for c in _calls(fn, 'sum') if len(c.args) == 1 and isinstance(c.args[0], ast.GeneratorExp)]
-    assert len(sums) == 1, 'one sum(<generator>) expected'
-    g = sums[0].args[0]
-    assert len(g.generators) == 1 and _u(g.generators[0].iter) == itname and not g.generators[0].ifs, f'sum must range over {itname}'
-    v = _u(g.generators[0].target)
-    term = pyexpr.z(g.elt, {f'{v}[0]': 'r0', f'{v}[1]': 'r1'})
-    return _u(gens[0].value), term
+    """`<itname> = (<elt> for ... )` and `sum(r[1] - r[0] for r in <itname>)` -> (generator text, Z term);
+    another shape yields a marker and the term 0, which the size lemmas of SelectTie.v reject"""
+    try:
+        gens = [n for n in ast.walk(fn) if isinstance(n, ast.Assign) and _u(n.targets[0]) == itname and isinstance(n.value, ast.GeneratorExp)]
+        assert len(gens) == 1, f'{itname} generator expected'
+        sums = [c for c in _calls(fn, 'sum') if len(c.args) == 1 and isinstance(c.args[0], ast.GeneratorExp)]
+        assert len(sums) == 1, 'one sum(<generator>) expected'
+        g = sums[0].args[0]
+        assert len(g.generators) == 1 and _u(g.generators[0].iter) == itname and not g.generators[0].ifs, f'sum must range over {itname}'
+        v = _u(g.generators[0].target)
+        return _u(gens[0].value), pyexpr.z(g.elt, {f'{v}[0]': 'r0', f'{v}[1]': 'r1'})
+    except (AssertionError, pyexpr.Untranslatable) as e:
+        return f'<not a sum over chunk ranges: {e}>', '0'
 
 
 @unit('SelectGen')
